@@ -277,11 +277,36 @@ fn run_batch(prop: &str, b: &Batch, n: u64, master: u64, t: Tier, ignorable: &(d
     let total = Mutex::new(Agg::default());
     let stop = AtomicBool::new(false);
     let nw = workers().min(n.max(1) as usize);
+    // Watchdog: a run that does not come back is a driver call that neither returns nor reaches
+    // any point the simulator can see (a busy-wait on something that is not the used ring, a
+    // loop on pure computation). Runs take milliseconds (seconds for the wrap-around batches);
+    // the limit is generous. The run is identified by its seed, which replays it.
+    let running: Vec<Mutex<Option<(Instant, u64, u64)>>> = (0..nw).map(|_| Mutex::new(None)).collect();
+    let live = AtomicU64::new(nw as u64);
+    let limit = run_time_limit(b.heavy);
     std::thread::scope(|s| {
-        for _ in 0..nw {
+        s.spawn(|| {
+            while live.load(Ordering::Relaxed) > 0 {
+                std::thread::sleep(Duration::from_millis(250));
+                for slot in &running {
+                    let cur = *slot.lock().unwrap();
+                    if let Some((since, i, seed)) = cur {
+                        if since.elapsed() > limit {
+                            report_hung_run(prop, b, i, seed, limit);
+                        }
+                    }
+                }
+            }
+        });
+        for wi in 0..nw {
+            let running = &running;
+            let live = &live;
+            let next = &next;
+            let stop = &stop;
+            let total = &total;
             std::thread::Builder::new()
                 .stack_size(512 << 20)
-                .spawn_scoped(s, || {
+                .spawn_scoped(s, move || {
                     TIER.with(|c| c.set(t));
                     let mut agg = Agg::default();
                     let mut new_viol = 0;
@@ -295,7 +320,9 @@ fn run_batch(prop: &str, b: &Batch, n: u64, master: u64, t: Tier, ignorable: &(d
                         }
                         let seed = run_seed(master, prop, b.name, i);
                         let tape = if b.grid > 0 { Tape::generate_forced(seed, vec![i % b.grid]) } else { Tape::generate(seed) };
+                        *running[wi].lock().unwrap() = Some((Instant::now(), i, seed));
                         let o = exec_run(b.scn(), tape, false);
+                        *running[wi].lock().unwrap() = None;
                         let counts = !o.violations.is_empty() && !ignorable(&o);
                         if !o.violations.is_empty() && !counts && agg.viol.len() >= 4 {
                             // known finding / other property's class: keep a few, do not stop
@@ -313,6 +340,7 @@ fn run_batch(prop: &str, b: &Batch, n: u64, master: u64, t: Tier, ignorable: &(d
                         }
                     }
                     total.lock().unwrap().merge(agg);
+                    live.fetch_sub(1, Ordering::Relaxed);
                 })
                 .expect("spawn worker");
         }
@@ -321,6 +349,41 @@ fn run_batch(prop: &str, b: &Batch, n: u64, master: u64, t: Tier, ignorable: &(d
     a.viol.sort_by_key(|v| v.0);
     a.samples.sort_by_key(|v| v.0);
     a
+}
+
+pub fn run_time_limit(heavy: bool) -> Duration {
+    let d = if heavy { 3600 } else { 300 };
+    Duration::from_secs(std::env::var("VERIF_RUN_TIMEOUT_S").ok().and_then(|s| s.parse().ok()).unwrap_or(d))
+}
+
+/// A run exceeded the watchdog limit: write a seed-based replay file, report and leave (the
+/// thread cannot be stopped from outside).
+fn report_hung_run(prop: &str, b: &Batch, idx: u64, seed: u64, limit: Duration) -> ! {
+    let path = verif_dir().join("replays").join(format!("{}-{}-{}.json", prop, b.name, seed));
+    let _ = std::fs::create_dir_all(path.parent().unwrap());
+    let msg = format!(
+        "a driver call did not return within {} s of wall-clock time and reached no point the simulator observes (transport, platform layer, queue-memory store, used-ring poll): it loops on something the device can never change",
+        limit.as_secs()
+    );
+    let mut fields = vec![
+        ("property", J::s(prop)),
+        ("batch", J::s(b.name)),
+        ("profile", J::s(profile_name())),
+        ("seed", J::u(seed)),
+        ("run_index", J::u(idx)),
+        ("key", J::s("run-does-not-terminate@watchdog")),
+        ("class", J::s("run-does-not-terminate")),
+        ("site", J::s("watchdog")),
+        ("message", J::s(&msg)),
+        ("replay_by_seed", J::Bool(true)),
+    ];
+    if b.grid > 0 {
+        fields.push(("forced_first_choice", J::u(idx % b.grid)));
+    }
+    let _ = std::fs::write(&path, J::obj(fields).to_string_pretty());
+    println!("VIOLATION property={} replay={}", prop, path.display());
+    println!("  {}:run-does-not-terminate@watchdog: {}", b.name, msg);
+    std::process::exit(1);
 }
 
 // -------------------------------------------------------------------------------------------
@@ -751,6 +814,28 @@ pub fn replay_file(path: &str, find_batch: impl Fn(&str, &str) -> Option<Scn>) -
     let batch = j.get("batch").and_then(|x| x.as_str()).unwrap_or("");
     let key = j.get("key").and_then(|x| x.as_str()).unwrap_or("");
     let want_hash = j.get("event_log_hash").and_then(|x| x.as_str()).unwrap_or("");
+    if j.get("replay_by_seed").is_some() {
+        let seed = j.get("seed").and_then(|x| x.as_u64()).unwrap_or(0);
+        let Some(f) = find_batch(prop, batch) else {
+            println!("HARNESS-ERROR: unknown property/batch {prop}/{batch}");
+            return 2;
+        };
+        let tape = match j.get("forced_first_choice").and_then(|x| x.as_u64()) {
+            Some(c) => Tape::generate_forced(seed, vec![c]),
+            None => Tape::generate(seed),
+        };
+        let limit = run_time_limit(false).min(Duration::from_secs(120));
+        let (p2, k2) = (prop.to_string(), path.to_string());
+        std::thread::spawn(move || {
+            std::thread::sleep(limit);
+            println!("VIOLATION property={p2} replay={k2}");
+            println!("  replay of {k2}: reproduced: the run does not terminate ({} s)", limit.as_secs());
+            std::process::exit(1);
+        });
+        let o = exec_run(f, tape, true);
+        println!("replay of {path}: the run terminated this time ({} violation(s)): not reproduced", o.violations.len());
+        return if o.violations.is_empty() { 0 } else { 1 };
+    }
     let Some(tape) = j.get("tape").and_then(|x| x.as_arr()) else {
         println!("replay file {path} has no tape (exhaustive-sweep finding): message: {}", j.get("message").and_then(|x| x.as_str()).unwrap_or(""));
         return 2;
